@@ -34,8 +34,18 @@ Theorem C12_front_single_owner : forall al d pref_doc warn m st st' w top rest,
   walk_member al d pref_doc warn st m = Ok (st', w) -> vs_stack st = top :: rest -> (forall f, top <> FFunc f) ->
   exists top', vs_stack st' = top' :: rest /\ hdr_eq top top'.
 Proof. exact walk_member_single_owner. Qed.
+(* ids inside a class: <class id>/<name> for every method and nested class *)
+Theorem C12_front_class_ids : forall al d pref_doc warn st c st' w top rest,
+  walk_member al d pref_doc warn st (CMClass c) = Ok (st', w) -> is_enum_def c = false -> vs_stack st = top :: rest ->
+  exists cl, vs_stack st' = add_cls top cl :: rest /\ c_name cl = cd_name c /\ c_id cl = id_from_stack st (cd_name c) /\
+    map f_name (c_methods cl) = map fn_name (class_method_defs (class_walked c)) /\
+    map f_id (c_methods cl) = map (fun f => c_id cl ++ K"/" ++ fn_name f) (class_method_defs (class_walked c)) /\
+    map c_name (c_classes cl) = map cd_name (member_classes (class_walked c)) /\
+    map c_id (c_classes cl) = map (fun x => c_id cl ++ K"/" ++ cd_name x) (member_classes (class_walked c)).
+Proof. exact class_inventory. Qed.
 Print Assumptions C12_lists_sorted_nodup.
 Print Assumptions C12_lists_complete.
 Print Assumptions C12_id_form.
 Print Assumptions C12_front_module_ids.
 Print Assumptions C12_front_single_owner.
+Print Assumptions C12_front_class_ids.
